@@ -327,7 +327,16 @@ func registerTime() {
 		// inst - E if representable, unspecified (an uninterpreted function of the instant) otherwise
 		x.declUF("unixnano_unspec", "(Int) Int")
 		d := fmt.Sprintf("(- %s %s)", a[0].T.S, unixEpochNs)
-		x.assume(Term{fmt.Sprintf("(and (<= (- 9223372036854775808) (unixnano_unspec %s)) (<= (unixnano_unspec %s) 9223372036854775807))", a[0].T.S, a[0].T.S), "Bool"})
+		if x.inQuant > 0 {
+			// the argument may mention bound variables: state the range of the unspecified
+			// value once, for every instant
+			if !x.sentAssumed["unixnano_unspec range"] {
+				x.sentAssumed["unixnano_unspec range"] = true
+				x.pendingAxioms = append(x.pendingAxioms, "(assert (forall ((t!un Int)) (! (and (<= (- 9223372036854775808) (unixnano_unspec t!un)) (<= (unixnano_unspec t!un) 9223372036854775807)) :pattern ((unixnano_unspec t!un)))))")
+			}
+		} else {
+			x.assume(Term{fmt.Sprintf("(and (<= (- 9223372036854775808) (unixnano_unspec %s)) (<= (unixnano_unspec %s) 9223372036854775807))", a[0].T.S, a[0].T.S), "Bool"})
+		}
 		return x.intTermOf(fmt.Sprintf("(ite (and (<= (- 9223372036854775808) %s) (<= %s 9223372036854775807)) %s (unixnano_unspec %s))", d, d, d, a[0].T.S))
 	})
 	m("time.(Time).Truncate", func(x *Exec, st *State, a []Val, rt types.Type) Term {
